@@ -16,6 +16,9 @@
  *                    a typed void*[VP_VEC_CAP] object, later requests return
  *                    the same object; a request above the capacity is reported
  *                    ("vp-model:").  No pointer is ever stored in a byte array.
+ * ldb_free        -> free(); with -DVP_NOFREE a no-op (larger configurations:
+ *                    CBMC's deallocation bookkeeping is a large part of the
+ *                    formula).
  * Under VP_REPLAY the libc allocator is used (ASan checks the exact sizes).
  */
 #include <stdlib.h>
@@ -75,8 +78,15 @@ vp_realloc_ptrs(void *ptr, size_t size) {
 
 void
 ldb_free(void *ptr) {
+#if defined(VP_NOFREE) && VP_NOFREE
+  /* -DVP_NOFREE: memory is never released (no reuse; CBMC then cannot see a
+     use after free -- the harness monitors object lifetimes with ghost
+     state, the ASan replay uses the libc allocator) */
+  (void)ptr;
+#else
   if (ptr != NULL)
     free(ptr);
+#endif
 }
 
 #endif
